@@ -133,6 +133,22 @@ def w_transitions(idx):
         n += 1
         if hung:
             break             # a call that does not return: reported once per worker, do not wait for every other case
+        if not results and t["op"]["name"] in ("delete", "replace_child"):
+            # once more with every stored parent pointer cleared through the public `parent` setter before the call: which
+            # nodes a recursive delete reaches is a matter of the child lists
+            w2 = World()
+            okp = True
+            for o, tk in access[canon(t["from"], FIELDS)]:
+                okp = okp and apply_op(w2, o)[0]
+            if okp and canon(w2.pi(FIELDS), FIELDS) == canon(t["from"], FIELDS):
+                for x in w2.nodes:
+                    x.parent = None
+                ok2, ret2, exc2 = apply_op(w2, t["op"])
+                got = sorted(w2.pi(FIELDS)["store"])
+                if ok2 == t["op"]["ok"] and got != sorted(t["to"]["store"]):
+                    flags = (":recursive" if t["op"]["args"][1] else ":single") if t["op"]["name"] == "delete" else (":delete" if t["op"]["args"][3] else ":keep")
+                    out.append((f"{t['op']['name']}{flags}:registry-depends-on-stored-parent-pointers", f"expected registry {sorted(t['to']['store'])} got {got}",
+                                {"kind": "history", "ops": ops, "expected_to": t["to"], "variant": "all parent pointers set to None before the last call"}))
         if not results:
             for clause, det in id_only_observer(w):
                 out.append((f"{t['op']['name']}:{clause}", det, {"kind": "history", "ops": ops, "expected_to": t["to"], "observer": "keeps ids only"}))
